@@ -408,9 +408,9 @@ VARIANTS = [
     M("search-first-guard-removed", "lena/structures/hist_functions.py", "            if ind_min == ind_guess:\n                ind_min += 1\n                continue\n            # ind_max is always more that ind_guess,\n            # because val < arr[ind_max] (see the formula for shift).\n            # This branch is not needed and can't be tested.\n            # But for the sake of numerical inaccuracies, let us keep this\n            # so that we never get into an infinite loop.\n            elif ind_max == ind_guess:", "            if ind_max == ind_guess:", ["C06-f"]),
     M("search-step-zero", "lena/structures/hist_functions.py", "            if ind_min == ind_guess:\n                ind_min += 1\n                continue", "            if ind_min == ind_guess:\n                ind_min += 0\n                continue", ["C06-f"]),
     M("value-float-once", "lena/structures/hist_functions.py", "    ind_min = 0\n    ind_max = len(arr) - 1\n    while True:\n        if ind_max - ind_min <= 1:", "    ind_min = 0\n    ind_max = len(arr) - 1\n    val = float(val)\n    while True:\n        if ind_max - ind_min <= 1:", ["C06-c"]),
-    M("drop-overflow-accounting", "lena/structures/histogram.py", "        try:\n            subarr[ind] += weight\n        except IndexError:\n            self.n_out_of_range += weight\n            return",
-      "        try:\n            subarr[ind] += weight\n        except IndexError:\n            return", ["C06-a"]),
-    M("double-weight", "lena/structures/histogram.py", "        if ind < 0:\n            self.n_out_of_range += weight\n            return\n\n        try:\n            subarr[ind] += weight",
+    M("drop-overflow-accounting", "lena/structures/histogram.py", "        try:\n            ## filling the found bin ##\n            subarr[ind] += weight\n        except IndexError:\n            self.n_out_of_range += weight\n            return",
+      "        try:\n            ## filling the found bin ##\n            subarr[ind] += weight\n        except IndexError:\n            return", ["C06-a"]),
+    M("double-weight", "lena/structures/histogram.py", "        if ind < 0:\n            self.n_out_of_range += weight\n            return\n\n        try:\n            ## filling the found bin ##\n            subarr[ind] += weight",
       "        if ind < 0:\n            self.n_out_of_range += weight\n            return\n\n        try:\n            subarr[ind] += weight\n            self.n_out_of_range += 0 * weight", ["C06-a"]),
     M("unit-weight", "lena/structures/histogram.py", "            subarr[ind] += weight\n        except IndexError:", "            subarr[ind] += 1\n        except IndexError:", ["C06-a"]),
     M("no-negative-guard", "lena/structures/histogram.py", "        ind = indices[-1]\n        # underflow\n        if ind < 0:\n            self.n_out_of_range += weight\n            return\n", "        ind = indices[-1]\n", ["C06-b"]),
@@ -420,6 +420,6 @@ VARIANTS = [
     M("element-fills-twice", "lena/structures/histogram.py", "        self._hist.fill(data)\n", "        self._hist.fill(data)\n        self._hist.fill(data, 0)\n", ["C06-a"]),
     M("edges-unchecked", "lena/structures/histogram.py", "        hf.check_edges_increasing(edges)\n        self.edges = edges", "        self.edges = edges", ["C06-d"]),
     M("lookup-wrong-pairing", "lena/structures/hist_functions.py", "        cur_bin = get_bin_on_value_1d(arg[ind], array)", "        cur_bin = get_bin_on_value_1d(arg[0], array)", ["C06-e"]),
-    TW("rename-subarr", "lena/structures/histogram.py", "        try:\n            subarr[ind] += weight\n        except IndexError:\n            self.n_out_of_range += weight\n            return",
-       "        try:\n            subarr[ind] += weight\n        except IndexError:\n            self.n_out_of_range += weight\n            return\n        return"),
+    TW("rename-subarr", "lena/structures/histogram.py", "        try:\n            ## filling the found bin ##\n            subarr[ind] += weight\n        except IndexError:\n            self.n_out_of_range += weight\n            return",
+       "        try:\n            ## filling the found bin ##\n            subarr[ind] += weight\n        except IndexError:\n            self.n_out_of_range += weight\n            return\n        return"),
 ]
